@@ -17,6 +17,7 @@ VERSION_SENSITIVE = [
     "print(y := 3)\n", "async = 1\n", "def f(a, /, b): pass\n", "with (a as b, c as d): pass\n",
     "try:\n    pass\nexcept* E:\n    pass\n", "type X = int\n", "match x:\n    case 1: pass\n",
     "x = f'{a!r:>{w}}'\n", "print 'x'\n", "x = 1_000\n", "def f[T](): pass\n", "await = 3\n",
+    "x = t'{a}'\n", "y = rt'''{b!r}'''\n",
 ]
 
 
@@ -59,6 +60,9 @@ def _common_config(rng, profile):
         files = [f for f in files if f not in ('src/a/mod.py', 'src/mod.py')][:2] + ['src/link/../mod.py', 'src/mod.py']
     ng = rng.choice([1, 1, 2, 3])
     grammars = rng.sample(corpus.VERSIONS, ng)
+    if rng.random() < 0.12:
+        # versions whose grammar files are byte-identical (they share the cache key upstream)
+        grammars = list(rng.choice([('3.13', '3.14'), ('3.10', '3.11')]))
     if profile == 'stale' and rng.random() < 0.15:
         grammars.append(rng.choice(grammars) + '+c')       # a custom grammar of the same version
     cfg = {
